@@ -21,6 +21,11 @@ Variant switches (DESIGN §6.5): `atomicSet` (repaired: second check + publish a
 defective: `checkServer` and `setInFlightConnection` are separate) and `foreignReset` (defective: `connect()` clears
 the in-flight slot after ANY unsuccessful result, also one that belongs to another request).
 
+Request objects: `Act.create` is `CreateConnectionRequest` alone — the object (with its creation-time snapshot
+`prev` = `previousServer`) may be connected at ANY later point (`created → check1` is an ordinary task step), so
+schedules quantify over the creation point.  The repaired `handleJoinGame` never consults the snapshot for its decision
+(variant `joinBySnapshot` = a seeded defect that does).
+
 Abstractions: events other than ServerPreConnect are not modelled (no subscriber), Forge phases are absent (every
 result is "safe"), timeouts never fire, `Player.Disconnect` + `teardown` is a single step (`quitPlayer`), the client
 always answers the configuration hand-shake (folded into the backend step that needs the answer).
@@ -49,6 +54,7 @@ structure Conn where
   jold : Option Nat := none          -- `existingConn` local of handleJoinGame / doSwitch
   completedJoin : Bool := false
   result : Option Res := none        -- requestCtx.result (sync.Once): first writer wins
+  prev : Option Nat := none          -- `previousServer`: the REQUEST's creation-time snapshot, not the player's state
   deriving DecidableEq, Repr, Inhabited
 
 inductive Mode | plain | indication | redirect
@@ -58,6 +64,7 @@ inductive Ev | allow | deny | redirect (d : Nat)
   deriving DecidableEq, Repr, Inhabited
 
 inductive PC
+  | created                          -- CreateConnectionRequest done, Connect not called yet
   | check1 | event | check2 | set | dial | wait | deferReset | post | cancel | done
   | err2 (rs : Nat) | next (rs : Nat) | resetIf (rs : Nat)
   | kickReset (kfc : Bool) (redir : Option Nat)
@@ -73,6 +80,8 @@ structure Task where
   ev : Ev := .allow
   conn : Option Nat := none
   res : Option Res := none
+  prev : Option Nat := none          -- server the player was on when the request object was CREATED (nil-able)
+  tag : Nat := 0                     -- harness key of a request object kept for later (0 = none)
   deriving DecidableEq, Repr, Inhabited
 
 structure Cfg where
@@ -80,6 +89,7 @@ structure Cfg where
   try_ : List Nat                    -- config `try`
   atomicSet : Bool
   foreignReset : Bool
+  joinBySnapshot : Bool := false     -- defective: handleJoinGame consults the request's snapshot instead of the player
   deriving Repr
 
 structure St where
@@ -98,7 +108,8 @@ structure St where
 inductive Act
   | task (i : Nat)                   -- request / kick-path goroutine i runs its next critical section
   | back (c : Nat)                   -- read loop of backend connection c handles its next packet / section
-  | spawn (m : Mode) (d : Nat) (ev : Ev)
+  | spawn (m : Mode) (d : Nat) (ev : Ev)   -- CreateConnectionRequest(d) immediately followed by Connect
+  | create (d : Nat) (tag : Nat)     -- CreateConnectionRequest(d) only: the object is kept, Connect comes later (if ever)
   | release (c : Nat)                -- a stalled backend goes on
   | kick (c : Nat)                   -- backend sends Disconnect in play
   | drop (c : Nat)                   -- backend closes the connection in play
@@ -157,6 +168,9 @@ def nextToTry (cfg : Cfg) (s : St) (rs : Nat) : Option (Nat × Nat) :=
     (match s.current with | some c => (s.conns c).server == x | none => false) ||
     (match s.inFlight with | some c => (s.conns c).server == x | none => false) || x == rs
   scanTry skip (cfg.try_.drop s.tryIndex) s.tryIndex
+
+/-- the server the player is on right now (`connectedServer()` at request creation) -/
+def curServer (s : St) : Option Nat := s.current.map fun c => (s.conns c).server
 
 def isKickPc : PC → Bool
   | .err2 _ | .next _ | .resetIf _ | .kickReset _ _ | .kickClear _ _ | .kickApply _ _ _ => true
@@ -219,6 +233,10 @@ def stepBack (cfg : Cfg) (s : St) (c : Nat) : Option St :=
       | .kickConfig => some { s with conns := upd s.conns c { C with h := .closeSelf, result := orElse C.result .disconnected } }
       | .eofTrans => some (closeConn s c)
       | .accept =>     -- JoinGame: lock; existingConn := connectedServer_; connectedServer_ = nil; unlock
+        -- (defective variant: the lookup is skipped when the REQUEST's snapshot `previousServer` is nil)
+        if cfg.joinBySnapshot && C.prev.isNone then
+          some { s with conns := upd s.conns c { C with h := .j3, jold := none } }
+        else
         match s.current with
         | some o => some { s with conns := upd s.conns c { C with h := .j1b, jold := some o }, current := none }
         | none => some { s with conns := upd s.conns c { C with h := .j3, jold := none } }
@@ -236,6 +254,7 @@ def stepTask (cfg : Cfg) (s : St) (i : Nat) : Option St :=
   if i ≥ s.ntasks then none else
   let T := s.tasks i
   match T.pc with
+  | .created => some (setPc s i .check1)     -- Connect(ctx) is called on the kept request object
   | .check1 =>
       match checkServer s T.dest with
       | some r => some (finish s i r)
@@ -254,7 +273,7 @@ def stepTask (cfg : Cfg) (s : St) (i : Nat) : Option St :=
       | some r => some (finish s i r)
       | none =>
         some { s with nconns := s.nconns + 1,
-                      conns := upd s.conns s.nconns { server := T.dest, phase := .dialing },
+                      conns := upd s.conns s.nconns { server := T.dest, phase := .dialing, prev := T.prev },
                       inFlight := some s.nconns,
                       tasks := upd s.tasks i { T with conn := some s.nconns, pc := .dial } }
   | .dial =>
@@ -320,14 +339,17 @@ def stepTask (cfg : Cfg) (s : St) (i : Nat) : Option St :=
   | .kickApply kfc redir prev =>
       if !s.active then some (setPc s i .done) else
       match kfc, redir with
-      | true, some d => some { s with tasks := upd s.tasks i { pc := .check1, mode := .redirect, orig := d, dest := d } }
+      | true, some d =>   -- createConnectionRequestWith(next, previousConnection): only the nil-ness of the snapshot matters
+          some { s with tasks := upd s.tasks i { pc := .check1, mode := .redirect, orig := d, dest := d,
+                                                 prev := if prev then some d else none } }
       | true, none => some (setPc (quitPlayer s) i .done)
       | false, _ => if prev then some (setPc s i .done) else some (setPc (quitPlayer s) i .done)
 
 def step (cfg : Cfg) (s : St) : Act → Option St
   | .task i => stepTask cfg s i
   | .back c => stepBack cfg s c
-  | .spawn m d ev => some (spawnTask s { pc := .check1, mode := m, orig := d, dest := d, ev := ev })
+  | .spawn m d ev => some (spawnTask s { pc := .check1, mode := m, orig := d, dest := d, ev := ev, prev := curServer s })
+  | .create d tag => some (spawnTask s { pc := .created, orig := d, dest := d, prev := curServer s, tag := tag })
   | .release c => if c < s.nconns && (s.conns c).stalled then
         some { s with conns := upd s.conns c { s.conns c with stalled := false } } else none
   | .kick c => if c < s.nconns && (s.conns c).phase = .play && (s.conns c).h = .idle then
@@ -356,7 +378,7 @@ def countAttempting (s : St) : Nat → Nat
 /-- number of attempts in flight -/
 def inFlightCount (s : St) : Nat := countAttempting s s.nconns
 
-def repaired (modern : Bool) (try_ : List Nat) : Cfg := ⟨modern, try_, true, false⟩
-def original (modern : Bool) (try_ : List Nat) : Cfg := ⟨modern, try_, false, true⟩
+def repaired (modern : Bool) (try_ : List Nat) : Cfg := ⟨modern, try_, true, false, false⟩
+def original (modern : Bool) (try_ : List Nat) : Cfg := ⟨modern, try_, false, true, false⟩
 
 end Gate.C16
